@@ -194,9 +194,11 @@ def run(run: common.Run):
 
 
 def mask_lines(run, case, src, ref, sv, rv, multi, proc_ref, nb):
-    """parameter mask = jointly valid on the processing grid (model validity rules), gain models only (no degenerate windows)"""
-    if case['model'] == 'gain-offset':
-        return
+    """
+    parameter mask = jointly valid on the processing grid (model validity rules): equality for the gain models; for gain-offset,
+    whose degenerate windows have no solution, inclusion - no band of the parameter image is valid where the images are not both
+    valid (every band: gain, offset and R2 of every pair)
+    """
     # the other image reaches the processing grid by `average` when it is the finer one (R1: valid iff a valid pixel
     # overlaps) and by an up-sampling kernel when it is the coarser one (R2: valid iff the pixel containing the centre is)
     if proc_ref:
@@ -218,6 +220,15 @@ def mask_lines(run, case, src, ref, sv, rv, multi, proc_ref, nb):
         return
     # up-sampling: pixels whose centre sits exactly on an edge of the coarser grid are decided by float noise in GDAL
     decided = ~resamp.centre_tie_mask(og, pg) if method == 'nearest' else np.ones(exp.shape, bool)
+    for b in range(multi.param_masks.shape[0]):
+        extra = multi.param_masks[b].astype(bool) & ~exp & decided
+        if extra.any():
+            d = np.argwhere(extra)
+            run.fail(case, f'parameter band {b + 1} ({multi.param_descriptions[b]}) is valid at {len(d)} pixels where the two images are '
+                     f'not both valid, e.g. {d[0].tolist()}', signature=dict(kind='param-mask', band_kind=('gain', 'offset', 'r2')[b // nb]))
+            return
+    if case['model'] == 'gain-offset':
+        return
     if not np.array_equal(got_full.astype(bool)[decided], exp[decided]):
         d = np.argwhere((got_full.astype(bool) != exp) & decided)
         run.fail(case, f'parameter mask differs from "both images valid on the processing grid" at {len(d)} pixels, e.g. '
